@@ -207,6 +207,7 @@ private:
     std::deque< expect_rsp > lapsed_optional_;      // optional answers the central stopped waiting for
     bool                tx_starved_since_update_ = false;   // since the last instant based PDU was delivered, an event ended without a free transmit buffer
     bool                last_evt_unacked_ = false;      // the peripheral's last transmitted PDU carried data nothing acknowledged yet
+    bool                raw_instant_pdu_sent_ = false;  // on this connection the central sent an instant based PDU with arbitrary content
 
     void activity();
     void advertising_activity();
@@ -254,7 +255,7 @@ inline void world::run( const sim::Plan& plan )
             if ( c_.connected ) queue_central_control( static_cast< std::uint8_t >( op.arg( 0 ) ), op.bytes, true, static_cast< int >( op.arg( 1, -1 ) ) );
             break;
         case op_central_update:
-            if ( c_.connected && !c_.upd.active )
+            if ( c_.connected && !c_.upd.active && !raw_instant_pdu_sent_ )
             {
                 central_model::update u;
                 u.active = true;
@@ -511,6 +512,7 @@ inline void world::advertising_activity()
         app_procedure_started_local_us_ = -1; app_version_req_ = false; app_param_req_ = app_phy_req_ = 0;
         local_disconnect_requested_ = false;
         expected_close_reason_ = -1;
+        raw_instant_pdu_sent_ = false; tx_starved_since_update_ = false;
         (void)cb_before;
     }
     snapshot_adv_schedule();
@@ -635,6 +637,8 @@ inline void world::queue_central_control( std::uint8_t opcode, const bytes& para
         c_.sync_excused = true;
         control_checks_excused_ = true;
         c_.upd.tag = -1;
+        // the peripheral may hold this PDU until an instant the model does not know: a later procedure of the reference central would overlap with it
+        raw_instant_pdu_sent_ = true;
     }
     // ---- C27: what must come back
     const std::size_t len = p.payload.size();
@@ -765,9 +769,14 @@ inline void world::connection_event_activity()
     {
         // C22: the anchor of the targeted event lies inside the window
         if ( k_abs == c_.abs_counter && !in_window )
-            violate( c_.upd.active || instants_applied ? "C21" : "C22", "window-misses-anchor", std::string( established_ ? "window-misses-anchor" : "window-misses-first-anchor" ),
+        {
+            const bool around_update = c_.upd.active || instants_applied || ( c_.upd.kind == 0 && c_.upd.tag > 0 );
+            violate( around_update ? "C21" : "C22", "window-misses-anchor", std::string( established_ ? "window-misses-anchor" : "window-misses-first-anchor" ),
                      "event %llu: window [%lld, %lld] us after T0 does not contain the central's anchor at %lld us (interval %u us, combined accuracy, drifts p %.0f ppm c %.0f ppm)", (unsigned long long)k_abs,
                      (long long)( ws - r_.t0_us ), (long long)( we - r_.t0_us ), (long long)( to_local_us( c_.anchor_ns ) - r_.t0_us ), c_.interval_us, p_drift_ * 1e6, c_.drift * 1e6 );
+            // a connection update that was not applied in time: from here on both sides use different timing, everything else would be a consequence
+            if ( around_update && c_.upd.kind == 0 ) c_.sync_excused = true;
+        }
         if ( k_abs != c_.abs_counter && in_window )
             violate( "C23", "event-counter", "event-counter", "the window contains the central's event %llu but the peripheral counts it as event %llu", (unsigned long long)c_.abs_counter, (unsigned long long)k_abs );
         // C20: channel of the targeted event
@@ -778,7 +787,7 @@ inline void world::connection_event_activity()
             const unsigned want = c_.csa1( k_abs, map );
             if ( r_.channel != want )
             {
-                const bool around_instant = c_.upd.kind == 1 && ( c_.upd.active || instants_applied );
+                const bool around_instant = c_.upd.kind == 1 && c_.upd.tag > 0;      // a channel map update was delivered (or is on its way) on this connection
                 violate( around_instant ? "C21" : "C20", "data-channel", std::string( around_instant ? "data-channel at-map-instant" : "data-channel" ), "event %llu scheduled on channel %u, Channel Selection Algorithm #1 gives %u (hop %u)", (unsigned long long)k_abs, r_.channel, want, c_.hop );
                 c_.sync_excused = true;     // from here on the two sides hop differently: everything else would be a consequence
             }
@@ -911,7 +920,8 @@ inline void world::connection_event_activity()
             if ( evts.error_occured ) { must_listen_next_ = true; listen_reason_event_ = 6; }
             if ( c_.connected ) central_advance_event();
             r_.cb_end_event( evts );
-            if ( ( c_.upd.active || late_update_kind_ >= 0 ) && ll_.tx_allocatable && !ll_.tx_allocatable() ) { tx_starved_since_update_ = true; res_.probe( "no_transmit_buffer_while_instant_pending" ); }
+            // (also right after the instant: the central has applied the update by now, the peripheral may still have the PDU in its receive ring)
+            if ( ( c_.upd.active || late_update_kind_ >= 0 || ( c_.upd.tag > 0 && c_.abs_counter <= upd_instant_ + 1 ) ) && ll_.tx_allocatable && !ll_.tx_allocatable() ) { tx_starved_since_update_ = true; res_.probe( "no_transmit_buffer_while_instant_pending" ); }
             // ---- C27: the request in progress is answered within a few undisturbed events (a pending instant may hold answers back until the instant)
             if ( !expected_rsp_.empty() && current_acked_ && fault == 0 && !c_.upd.active && !control_checks_excused_ )
             {
@@ -940,8 +950,7 @@ inline void world::central_process( const bytes& rsp, bool& more_from_peripheral
     if ( r_nesn != c_.sn )
     {
         // our PDU was acknowledged
-        if ( c_.inflight.llid == 3 && c_.upd.active && !c_.upd.acked && !c_.inflight.payload.empty() &&
-             ( ( c_.upd.kind == 0 && c_.inflight.payload[ 0 ] == 0x00 ) || ( c_.upd.kind == 1 && c_.inflight.payload[ 0 ] == 0x01 ) || ( c_.upd.kind == 2 && c_.inflight.payload[ 0 ] == 0x18 ) ) )
+        if ( c_.inflight.llid == 3 && c_.upd.active && !c_.upd.acked && !c_.inflight.payload.empty() && upd_pdu_tag_ != 0 && c_.inflight.tag == upd_pdu_tag_ )
         {
             c_.upd.acked = true;
             // too late for the peripheral to apply it in time?
@@ -990,8 +999,12 @@ inline void world::central_handle_control( const ll_pdu& p )
         c_.connected = false;
         return;
     }
+    // the answer to the request in progress?
+    const bool answers_current = !expected_rsp_.empty() && current_acked_
+        && std::find( expected_rsp_.front().allowed.begin(), expected_rsp_.front().allowed.end(), opcode ) != expected_rsp_.front().allowed.end()
+        && ( opcode != 0x07 || expected_rsp_.front().opcode >= 0xfe || ( p.payload.size() == 2 && p.payload[ 1 ] == expected_rsp_.front().opcode ) );
     // an optional answer that took its time (the peripheral's transmit queue was busy)
-    for ( auto l = lapsed_optional_.begin(); l != lapsed_optional_.end(); ++l )
+    for ( auto l = lapsed_optional_.begin(); !answers_current && l != lapsed_optional_.end(); ++l )
         if ( std::find( l->allowed.begin(), l->allowed.end(), opcode ) != l->allowed.end() && ( opcode != 0x07 || ( p.payload.size() == 2 && p.payload[ 1 ] == l->payload[ 0 ] ) ) )
         {
             lapsed_optional_.erase( l );
@@ -1126,7 +1139,10 @@ inline void world::after_callbacks( const char* )
                 std::int64_t need = static_cast< std::int64_t >( c_.timeout_us );
                 // a connection update the peripheral got but the central did not live to apply: the peripheral is right to use its timeout from the instant on
                 if ( c_.upd.kind == 0 && c_.upd.tag > 0 && ( c_.upd.active || !c_.connected ) ) need = std::min< std::int64_t >( need, c_.upd.timeout_us );
-                if ( c_.timeout_us && silent + 2000 < need && !c_.sync_excused )
+                // the peripheral closes when the event at which the timeout is reached cannot be met: that is known at the start of that event's receive window,
+                // which is opened early by the combined clock accuracy over the silent time (neither side can measure the timeout more precisely than that)
+                const std::int64_t clock_tolerance = silent * static_cast< std::int64_t >( ll_.own_sca_ppm + c_.sca_ppm ) / 1000000;
+                if ( c_.timeout_us && silent + 2000 + clock_tolerance < need && !c_.sync_excused )
                     violate( "C22", "early-supervision-timeout", "early-supervision-timeout", "connection closed for supervision timeout after %lld us without a valid packet, the timeout is %lld us", (long long)silent, (long long)need );
                 if ( expected_close_reason_ >= 0 && !c_.sync_excused && air_fault_left_ == 0 && false )
                     violate( "C29", "close-reason", "close-reason", "closed with reason 0x08, expected 0x%02x", expected_close_reason_ );
